@@ -474,6 +474,21 @@ func (ce *CEnv) call(e *CExpr) Val {
 		i := ce.evalInt(args[0])
 		k, _ := ce.evalInt(args[1]).IntVal()
 		return boolVal(ce.heap.Get(fmt.Sprintf("log#b%d", k), 1, SBool).Select([]*Term{i}))
+	case "callres":
+		i := ce.evalInt(args[0])
+		k, _ := ce.evalInt(args[1]).IntVal()
+		return intVal(ce.heap.Get(fmt.Sprintf("log#r%d", k), 1, SInt).Select([]*Term{i}))
+	case "smhas", "smref", "smtag":
+		pl := ce.lvaluePlace(args[0])
+		k := refOf(ce.eval(args[1]))
+		idx := append(append([]*Term{}, pl.Idx...), k)
+		switch fn.Name {
+		case "smhas":
+			return boolVal(ce.heap.Get(pl.Prefix+"#smdom", len(idx), SBool).Select(idx))
+		case "smref":
+			return intVal(ce.heap.Get(pl.Prefix+"#smref", len(idx), SInt).Select(idx))
+		}
+		return intVal(ce.heap.Get(pl.Prefix+"#smtag", len(idx), SInt).Select(idx))
 	case "fnid":
 		if args[0].Op != "str" {
 			cfail("fnid needs a string literal")
